@@ -66,15 +66,17 @@ def sample(case, model):
 TEXT_KEYS = False
 
 
-def keytuple(schema, item):
+def keytuple(schema, item, index=False):
     """key by VALUE: (hash, range); None when an attribute is missing or has the wrong type"""
     out = []
     for name, typ in schema:
         v = item_get(item, name)
         if v is MISSING or tag(v) != typ:
             return None
-        if typ in ("S", "N", "B") and v[typ] == "":
-            return None          # a primary key attribute cannot be empty
+        if typ in ("S", "N", "B") and v[typ] == "" and not (index and typ == "B"):
+            # a primary key attribute cannot be empty; an item whose index key attribute is an empty binary
+            # possesses the attribute (empty strings and numbers as index keys are outside the generated domain)
+            return None
         out.append(("Ntext", v["N"]) if (TEXT_KEYS and typ == "N") else canon(v))
     return tuple(out)
 
@@ -129,7 +131,7 @@ class SpecTable:
 
     def index_items(self, name):
         sch = self.indexes[name]["schema"]
-        return [it for it in self.items.values() if keytuple(sch, it) is not None]
+        return [it for it in self.items.values() if keytuple(sch, it, index=True) is not None]
 
 
 def sort_value(av):
@@ -191,6 +193,17 @@ def run_world(case, sdk, checks):
                     if w.failure == "internal_server" and not bad:
                         if k != "batchWrite" or sum(len(r[1]) for r in o["batchWrite"]) != n_req:
                             w.flag(i, "batch-under-failure", "under internal_server every request must come back as unprocessed", impl=o)
+                        else:
+                            # ... each under the table it was sent for
+                            sent, back = {}, {}
+                            for tn, rs in op.get("wreqs", []):
+                                for r in rs:
+                                    kind_ = "put" if "put" in r else "del"
+                                    sent.setdefault(tn, []).append(json.dumps({kind_: canon_json_item(r[kind_])}, sort_keys=True))
+                            for tn, rs in o["batchWrite"]:
+                                back.setdefault(tn, []).extend(json.dumps(r, sort_keys=True) for r in rs)
+                            if {tn: sorted(v) for tn, v in sent.items() if v} != {tn: sorted(v) for tn, v in back.items() if v}:
+                                w.flag(i, "batch-under-failure", "under internal_server the unprocessed requests are not the requests that were sent, table by table", impl=json.dumps(o)[:200])
                     elif not bad and not expected_err(o, want):
                         w.flag(i, "failure-not-returned", "data operation under %s returned %s" % (w.failure, json.dumps(o)[:80]))
                 elif not (expected_err(o, want) or (sdk == "v1" and expected_err(o, "Validation"))):
@@ -407,6 +420,22 @@ def run_world(case, sdk, checks):
         if name == "batchWrite":
             if k == "batchWrite":
                 unp = {tn: list(rs) for tn, rs in o["batchWrite"]}
+                # what comes back as unprocessed is part of what was sent, table by table: the caller sends it again as it is
+                sent = {}
+                for tn, rs in op.get("wreqs", []):
+                    for r in rs:
+                        if "put" in r or "del" in r:
+                            kind_ = "put" if "put" in r else "del"
+                            sent.setdefault(tn, []).append(json.dumps({kind_: canon_json_item(r[kind_])}, sort_keys=True))
+                for tn, rs in unp.items():
+                    pool = list(sent.get(tn, []))
+                    for r in rs:
+                        rj = json.dumps(r, sort_keys=True)
+                        if rj in pool:
+                            pool.remove(rj)
+                        elif {"batch", "observe", "failure", "map"} & set(checks):
+                            w.flag(i, "batch-unprocessed-foreign", "UnprocessedItems lists for table %s a request the batch does not hold for that table (or holds fewer times): %s" % (h2s(tn), rj[:100]))
+                            break
                 for tn, rs in op.get("wreqs", []):
                     tt = w.tables.get(tn)
                     if tt is None:
@@ -830,7 +859,7 @@ CHECKS = {
     "C15": {"failure", "observe", "map", "crash"},
     "C16": {"restrictions", "crash"},
     "C17": {"crash"},
-    "C18": {"lifecycle", "index", "observe", "crash"},
+    "C18": {"lifecycle", "index", "observe", "crash", "native", "search"},
     "C19": {"batch", "map", "observe", "crash"},
     "C20": {"search", "cond", "observe", "crash", "native"},
 }
